@@ -307,7 +307,8 @@ def r2(ctx):
                 if "#" in kind:
                     ordn = int(kind.split("#")[1])
                     # order the candidates by CFG order of their decision points
-                    m.sort(key=lambda ke: sum(1 for k2, e2 in m if e2[0] != ke[1][0] and b.reachable(e2[0], ke[1][0]) and not b.reachable(ke[1][0], e2[0])))
+                    m0 = list(m)  # list.sort() empties the list while sorting: the key must look at a copy
+                    m.sort(key=lambda ke: sum(1 for k2, e2 in m0 if e2[0] != ke[1][0] and b.reachable(e2[0], ke[1][0]) and not b.reachable(ke[1][0], e2[0])))
                     m = m[ordn:ordn + 1] if len(m) > ordn else []
                 m = [x for x in m if x[0] not in used] if "#" not in kind else m
                 if len(m) != 1:
@@ -354,14 +355,7 @@ def r2(ctx):
                     # travel through `?` (helper inlined / ok_or_else / map_err): the Continue edge of a `?` fed by this
                     # very error value is infeasible and is cut.
                     if ok and k1 == "err" and e1 is not None:
-                        avoid = set()
-                        for tb, tt in b.calls(r"ops::Try::branch$"):
-                            tsl = b.slice_op(tt["args"][0])
-                            if any(d_["block"] == e1 for d_ in tsl.aggs):
-                                st_ = b.term(tt["target"]) if tt.get("target") is not None else None
-                                if st_ and st_["k"] == "switch":
-                                    avoid |= {bb for v, bb in st_["targets"] if v == 0}
-                        if p2 == e1 or p2 in b._reachable_from(e1, avoid=avoid):
+                        if p2 == e1 or p2 in b.reach_feasible(e1):
                             ok = False
                     # (iii) a `?`-call's success edge is the only way on to the later check
                     if ok and k1 == "call":
